@@ -24,9 +24,9 @@ struct VTimeMap {
 };
 
 // ---------------- spatial maps ----------------
-// mode 0 Scale : p = k * xi                         (dof = DIM)
+// mode 0 Scale : p = k_i * xi, k_i = k (1 + i/16)       (dof = DIM)
 // mode 1 Proj  : p = c_i + B xi, dof(i) = DIM-1 for odd i, DIM for even i (B = first DIM-1 columns of a fixed matrix), DIM >= 2
-// mode 2 Tanh  : p = c + r * tanh(xi)               (dof = DIM, nonlinear)
+// mode 2 Tanh  : p = c_i + r_i * tanh(xi), r_i = r (1 + i/8)   (dof = DIM, nonlinear, Jacobian depends on the point index)
 template <int DIM> struct VMap {
   typedef Eigen::VectorXd V;
   int mode = 0;
@@ -39,27 +39,27 @@ template <int DIM> struct VMap {
   V toPhysical(const V &xi, int index) const {
     VF_SCHED_POINT("toPhysical");
     V p(DIM);
-    if (mode == 0) { for (int d = 0; d < DIM; ++d) p(d) = prm[0] * xi(d); }
+    if (mode == 0) { const double k = prm[0] * (1.0 + 0.0625 * index); for (int d = 0; d < DIM; ++d) p(d) = k * xi(d); }
     else if (mode == 1) { int dof = getUnconstrainedDimNoSched(index); p = centre(index); for (int d = 0; d < DIM; ++d) for (int q = 0; q < dof; ++q) p(d) += (dof == DIM ? (d == q ? prm[0] : 0.0) : Bm(d, q)) * xi(q); }
-    else { V c = centre(index); for (int d = 0; d < DIM; ++d) p(d) = c(d) + prm[0] * std::tanh(xi(d)); }
+    else { V c = centre(index); const double r = prm[0] * (1.0 + 0.125 * index); for (int d = 0; d < DIM; ++d) p(d) = c(d) + r * std::tanh(xi(d)); }
     return p;
   }
   int getUnconstrainedDimNoSched(int index) const { return (mode == 1 && (index & 1) && DIM >= 2) ? DIM - 1 : DIM; }
   V toUnconstrained(const V &p, int index) const {
-    if (mode == 0) { V xi(DIM); for (int d = 0; d < DIM; ++d) xi(d) = p(d) / prm[0]; return xi; }
+    if (mode == 0) { V xi(DIM); const double k = prm[0] * (1.0 + 0.0625 * index); for (int d = 0; d < DIM; ++d) xi(d) = p(d) / k; return xi; }
     if (mode == 1) {
       int dof = getUnconstrainedDimNoSched(index); V r = p - centre(index);
       if (dof == DIM) return r / prm[0];
       Eigen::MatrixXd B(DIM, dof); for (int d = 0; d < DIM; ++d) for (int q = 0; q < dof; ++q) B(d, q) = Bm(d, q);
       return (B.transpose() * B).ldlt().solve(B.transpose() * r);
     }
-    V c = centre(index), xi(DIM); for (int d = 0; d < DIM; ++d) xi(d) = std::atanh((p(d) - c(d)) / prm[0]); return xi;
+    V c = centre(index), xi(DIM); const double r = prm[0] * (1.0 + 0.125 * index); for (int d = 0; d < DIM; ++d) xi(d) = std::atanh((p(d) - c(d)) / r); return xi;
   }
   V backwardGrad(const V &xi, const V &gp, int index) const {
     VF_SCHED_POINT("backwardGrad");
-    if (mode == 0) return prm[0] * gp;
+    if (mode == 0) return (prm[0] * (1.0 + 0.0625 * index)) * gp;
     if (mode == 1) { int dof = getUnconstrainedDimNoSched(index); V g(dof); for (int q = 0; q < dof; ++q) { double s = 0; for (int d = 0; d < DIM; ++d) s += (dof == DIM ? (d == q ? prm[0] : 0.0) : Bm(d, q)) * gp(d); g(q) = s; } return g; }
-    V g(DIM); for (int d = 0; d < DIM; ++d) { double th = std::tanh(xi(d)); g(d) = gp(d) * prm[0] * (1 - th * th); } return g;
+    V g(DIM); const double r = prm[0] * (1.0 + 0.125 * index); for (int d = 0; d < DIM; ++d) { double th = std::tanh(xi(d)); g(d) = gp(d) * r * (1 - th * th); } return g;
   }
 };
 
